@@ -18,10 +18,10 @@ def tla(b):
     return "TRUE" if b else "FALSE"
 
 
-def cfg(maxlen, out, unk, mal, invs=True):
-    return ("SPECIFICATION Spec\nCONSTANTS\n  MaxLen = %d\n  OutFile = \"%s\"\n  UnknownYieldsResult = %s\n  MalformedYieldsResult = %s\n%s"
-            "POSTCONDITION Emit\nCHECK_DEADLOCK FALSE\n") % (maxlen, out, tla(unk), tla(mal),
-                                                            "INVARIANTS InOrder OneResultPerElement StopsAtFailure SignalsFailure\n" if invs else "")
+def cfg(maxlen, out, unk, mal, invs=True, per=True):
+    return ("SPECIFICATION Spec\nCONSTANTS\n  MaxLen = %d\n  OutFile = \"%s\"\n  UnknownYieldsResult = %s\n  MalformedYieldsResult = %s\n  ParamsPerElement = %s\n%s"
+            "POSTCONDITION Emit\nCHECK_DEADLOCK FALSE\n") % (maxlen, out, tla(unk), tla(mal), tla(per),
+                                                            "INVARIANTS InOrder OneResultPerElement StopsAtFailure SignalsFailure ElementsIndependent\n" if invs else "")
 
 
 def shape(r):
@@ -31,8 +31,8 @@ def shape(r):
         feats.append("unknown-action")
     if "MALFORMED" in kinds:
         feats.append("malformed-data")
-    if r["ik"]:
-        feats.append("ik")
+    if r.get("pat", "none") != "none":
+        feats.append("attrs-" + r["pat"])
     if not feats:
         feats.append("plain")
     return "+".join(feats) + ("/continue" if r["cont"] else "/stop")
@@ -51,6 +51,10 @@ def run(ctx):
         if n["status"] != "invariant":
             raise Infra("negative design (unknown=%s malformed=%s) not rejected (vacuity guard)" % (unk, mal))
         rejected.append("UnknownYieldsResult=%s,MalformedYieldsResult=%s:%s" % (unk, mal, n["invariant"]))
+    n = ctx.tlc("Bulk", cfg(2, ctx.path("neg.ndjson"), True, True, per=False), "neg-carry", workers=4, timeout=600)
+    if n["status"] != "invariant" or n.get("invariant") != "ElementsIndependent":
+        raise Infra("negative design (parameters carried over between elements) not rejected (vacuity guard)")
+    rejected.append("ParamsPerElement=FALSE:%s" % n["invariant"])
     binp = ctx.build("apiconf")
     res = ctx.path("results.ndjson")
     ctx.run([binp, "-mode", "c18", "-in", cases, "-out", res, "-stats", ctx.path("stats.json")], timeout=2400)
@@ -72,13 +76,13 @@ def run(ctx):
         sig = "%s@%s" % (inv, shape(r))
         ctx.violation(sig, "%s fails on the real bulk endpoint: bulk %s continueOnFailure=%s -> status %s, results %s, backend calls %s" % (
             inv, json.dumps(r["bulk"]), r["cont"], r["status"], json.dumps(r["results"]), json.dumps(r["calls"])),
-            {"kind": "c18-bulk", "case": {"bulk": r["bulk"], "cont": r["cont"]}})
+            {"kind": "c18-bulk", "case": {"bulk": r["bulk"], "cont": r["cont"], "pat": r.get("pat", "none")}})
     if drift:
         ctx.notes.append("SPEC-DRIFT: %d backend calls did not fail/succeed as the harness planned them" % counts.get("Conf_CallOutcomeAsPlanned", drift))
     ctx.coverage.update({
         "states": g.get("distinct", 0), "transitions": g.get("generated", 0), "traces_validated_against_impl": st["bulks"],
         "evaluations": st["bulks"], "distinct_nontrivial": st["bulks"],
-        "rule": "bulks = every sequence of 1..%d elements over {CREATE, ADD_META, REVERT, DEL_META} x {succeeds, fails} + UNKNOWN action + MALFORMED data, x continueOnFailure, x {no idempotency keys, one key per action}; all distinct; each POSTed to the real router over a real Commander" % maxlen,
+        "rule": "bulks = every sequence of 1..%d elements over {CREATE, ADD_META, REVERT, DEL_META} x {succeeds, fails} + UNKNOWN action + MALFORMED data, x continueOnFailure, x which positions carry attributes of their own (idempotency key, and for CREATE reference / timestamp / an extra metadata key): none, all (one key per action kind), the odd, the even ones; all distinct; each POSTed to the real router over a real Commander" % maxlen,
         "negative_designs_rejected": rejected, "elements_by_kind": st["elements_by_kind"], "predicate_failures": counts,
         "samples": st["samples"][:2], "exhaustive": True,
     })
